@@ -1,4 +1,5 @@
 """C08 Reordering"""
+import eevent
 import esort
 import ewho
 import ecanon
@@ -37,5 +38,9 @@ def run(ctx):
                 "(don't-care; zero-suppressed for ZBDDs); level_swap splits children below the lower level through it.")
     n = eskip.run(ctx, F)
     ctx.floor("E-TABLE.skip", "interpreted skipped-cofactor cases", n, 20)
+    ctx.explain("E-EVENT: Manager::reorder of both managers brackets the closure (pre_gc, prepared flag, pre/post_reorder, "
+                "post_gc) and bumps the gc epoch on every path (caches keyed on it must not survive a reordering).")
+    eevent.check_manager(ctx, F, "oxidd_manager_index")
+    eevent.check_manager(ctx, F, "oxidd_manager_pointer")
     ctx.not_decided = ("that functions are preserved, that the requested order is reached with minimal swaps, "
                        "non-overlap of concurrent swaps (runtime indices)")
